@@ -443,13 +443,43 @@ pub struct KnownFinding {
     pub text: String,
 }
 
+
+/// A known-finding signature matches by prefix; with `*` in it, it is a glob over the whole
+/// signature (`*` = any run of characters).
+pub fn sig_matches(pattern: &str, sig: &str) -> bool {
+    if !pattern.contains('*') {
+        return sig.starts_with(pattern);
+    }
+    let parts: Vec<&str> = pattern.split('*').collect();
+    let mut pos = 0usize;
+    for (i, part) in parts.iter().enumerate() {
+        if part.is_empty() {
+            continue;
+        }
+        if i == 0 {
+            if !sig.starts_with(part) {
+                return false;
+            }
+            pos = part.len();
+        } else if i == parts.len() - 1 && !pattern.ends_with('*') {
+            return sig.len() >= pos + part.len() && sig[pos..].ends_with(part);
+        } else {
+            match sig[pos..].find(part) {
+                Some(j) => pos += j + part.len(),
+                None => return false,
+            }
+        }
+    }
+    true
+}
+
 /// true when `sig` is listed as a known finding of `prop`
 pub fn is_known(prop: &str, sig: &str) -> bool {
     static KNOWN: std::sync::OnceLock<Vec<KnownFinding>> = std::sync::OnceLock::new();
     KNOWN
         .get_or_init(load_known_findings)
         .iter()
-        .any(|k| k.property == prop && sig.starts_with(&k.sig))
+        .any(|k| k.property == prop && sig_matches(&k.sig, sig))
 }
 
 /// `known_findings.txt` lines:
@@ -534,7 +564,7 @@ pub fn finish(ctx: &Ctx, rep: Report, fin: Finish) -> ! {
     for v in &rep.violations {
         if let Some(k) = known
             .iter()
-            .find(|k| k.property == ctx.prop && v.sig.starts_with(&k.sig))
+            .find(|k| k.property == ctx.prop && sig_matches(&k.sig, &v.sig))
         {
             known_hit
                 .entry(k.sig.clone())
